@@ -239,7 +239,19 @@ func runReplicas(rng *Rng, n int, st *Stats, param string) ([]string, []any) {
 			}
 			obs := make([]*repObs, 3)
 			obs[0] = A.finalizeObs(txs, A.ValAddr)
+			if ci == 0 && bi == 1 {
+				// replica B's execution client is loaded: every answer of this block is correct but takes 0.8 s
+				B.EL.mu.Lock()
+				for k := 1; k <= 4; k++ {
+					B.EL.faults[B.EL.ncall+k] = "slow"
+				}
+				B.EL.mu.Unlock()
+				st.Count("slow-engine-on-one-replica")
+			}
 			obs[1] = B.finalizeObs(txs, A.ValAddr)
+			B.EL.mu.Lock()
+			B.EL.faults = map[int]string{}
+			B.EL.mu.Unlock()
 			if blk.Restart {
 				first := C.finalizeObs(txs, A.ValAddr)
 				C.Reopen()
